@@ -13,7 +13,7 @@ def ref(S):
 
 
 # min(referenceTimestamps, key=...) inside the loop body: iteration skolem W(j) (pyvc/core.py sk_install)
-contract(PT + ".dejitter", serves=["C14", "C05"], spec_module="spec.adjust",
+contract(PT + ".dejitter", serves=["C14", "C05", "C13"], spec_module="spec.adjust",
          inputs=lambda S, cfg: dict(self=wf_point_tier(S, "self"), referenceTier=ref(S),
                                     maxDifference=S.real("maxDifference")),
          requires=["0 < maxDifference", "maxDifference <= 1e15"],
